@@ -81,7 +81,9 @@ def gen_spec(rng):
                     b['kw'][f"s{g}"] = ref()
                 else:
                     b['kw'][f"g{g}"] = [ref() for _ in range(rng.randrange(0, 4))]
-                    b['kwgroup'][f"g{g}"] = rng.choice(['tuple', 'list'])
+                    # (iterators are deprecated but documented as accepted: used only once)
+                    b['kwgroup'][f"g{g}"] = rng.choice(['tuple', 'list', 'tuple', 'list', 'gen',
+                                                        'iter', 'map'])
             if not b['args'] and not b['kw']:
                 b['kw']['s0'] = ref()
         blocks.append(b)
@@ -107,6 +109,9 @@ def gen_spec(rng):
                     # DataEdit.add_output: few distinct sources, so the same name is referenced
                     # by several filters of the circuit
                     ev['filter'] = ['add_output', rng.choice(names[:2]), rng.random() < 0.8]
+                    if rng.random() < 0.4:
+                        # one DataEdit chain using the same key for two sources
+                        ev['filter'].append(rng.choice(names))
                 b.setdefault('events', []).append(ev)
     if rng.random() < 0.3:
         blocks[0].setdefault('events', []).append({'dest': '_ctrl', 'byname': True, 'filter': None,
@@ -145,9 +150,15 @@ def build(spec, evreg):
         for e in b.get('events', []):
             flt = None
             if e['filter']:
-                kind, ctrl, byname_ctrl = e['filter']
+                kind, ctrl, byname_ctrl = e['filter'][:3]
                 ctrl_ref = ctrl if (byname_ctrl or ctrl not in created) else created[ctrl]
-                if kind == 'add_output':
+                if kind == 'add_output' and len(e['filter']) > 3:
+                    second = e['filter'][3]
+                    second_ref = second if (byname_ctrl or second not in created) else created[second]
+                    flt = edzed.DataEdit.add_output('src_output', ctrl_ref).rename(
+                        'src_output', 'first').add_output('src_output', second_ref).rename(
+                        'src_output', 'second').copy('first', 'src_output')
+                elif kind == 'add_output':
                     flt = edzed.DataEdit.add_output('src_output', ctrl_ref)
                 else:
                     flt = edzed.IfOutput(ctrl_ref) if kind == 'ifoutput' else NotIfInit(ctrl_ref)
@@ -176,7 +187,9 @@ def build(spec, evreg):
         for k, v in b['kw'].items():
             if k in b['kwgroup']:
                 grp = [mkref(r) for r in v]
-                kw[k] = tuple(grp) if b['kwgroup'][k] == 'tuple' else grp
+                form = b['kwgroup'][k]
+                kw[k] = {'tuple': tuple, 'list': list, 'gen': lambda g: (x for x in g),
+                         'iter': iter, 'map': lambda g: map(lambda x: x, g)}[form](grp)
             else:
                 kw[k] = mkref(v)
         blk.connect(*args, **kw)
@@ -307,19 +320,30 @@ def check_structure(spec, circuit, created, evreg, ctx, where):
             # no attribute to inspect: the filter is run, it must read the output of the block
             ctx.count('add_output_sources_checked')
             src = blocks.get(e['filter'][1])
+            # every block gets a distinguishable output for the duration of the call (no await
+            # in between; the real outputs are mostly UNDEF / False here)
+            saved = {b: b._output for b in blocks.values()}
             try:
+                for n, b in blocks.items():
+                    b._output = ('vf-output-of', n)
                 res = flt({'vf': 1})
             except Exception as err:
                 raise core.Violation(
                     'filter-source-unresolved',
                     f"{where}: DataEdit.add_output(..., {e['filter'][1]!r}) raised {err!r} when "
                     "called after the finalisation")
-            if not isinstance(res, dict) or res.get('src_output') is not src.output \
-                    and res.get('src_output') != src.output:
+            finally:
+                for b, v in saved.items():
+                    b._output = v
+            want = {'vf': 1, 'src_output': ('vf-output-of', e['filter'][1])}
+            if len(e['filter']) > 3:
+                want.update(first=('vf-output-of', e['filter'][1]),
+                            second=('vf-output-of', e['filter'][3]))
+            if res != want:
                 raise core.Violation(
                     'filter-source-wrong',
-                    f"{where}: DataEdit.add_output(..., {e['filter'][1]!r}) produced {res!r}, "
-                    f"the block's output is {src.output!r}")
+                    f"{where}: DataEdit.add_output chain over {e['filter'][1:]} produced {res!r}, "
+                    f"expected {want!r}")
         elif flt is not None:
             ctx.count('filter_ctrl_checked')
             if flt._ctrl_blk is not blocks.get(e['filter'][1]):
